@@ -59,6 +59,16 @@ def run():
         acc.traces += 1
         if r["why"]:
             v.fail("bigfile:" + r["spelling"], r)
+    oute = os.path.join(sub("out"), "loadedges.ndjson")
+    rc, txt, _ = go_overlay_test("v2", V2_SOURCES, "^TestVerifLoadEdges$", env={"VERIF_OUT": oute}, timeout=900)
+    recs = read_ndjson(oute)
+    if vlib.build_failed(txt) or not recs:
+        raise vlib.Inconclusive("load edge-case driver failed:\n" + txt[-3000:])
+    for r in recs:
+        acc.traces += 1
+        if r["why"] and not r["why"].startswith("skipped"):
+            v.fail("edge:" + r["spelling"], r)
+    acc.extra["edge_cases"] = [r["spelling"] for r in recs]
     out3 = os.path.join(sub("out"), "default.ndjson")
     rc, txt, _ = go_overlay_test("v2/assets", ["assets/assets_driver_test.go"], "^TestVerifDefaultClassifier$", env={"VERIF_OUT": out3}, timeout=1800)
     recs = read_ndjson(out3)
